@@ -40,7 +40,7 @@ def blocks_oracle(spec, blocks):
         lo = list((m.get("loop-order") or {}).get(e) or [])
         sp = ((m.get("spacetime") or {}).get(e) or {}).get("space") or []
         sp = [re.sub(r"\.(pos|coord)$", "", x) for x in sp]
-        return lo[:lo.index(sp[0])] if sp else lo
+        return lo[:min(lo.index(x) for x in sp)] if sp else lo      # the first spatial rank IN LOOP ORDER
 
     def functional(e):
         out = set()
@@ -168,6 +168,8 @@ def run(tier, seed):
         jobs.append({"name": "history<=3/3ranks", "func": "history", "role": "hunt", "timeout": 600, "env": {"CH_RANKS": 3}})
         jobs.append({"name": "history<=3/2ranks", "func": "history", "role": "hunt", "timeout": 300, "env": {"CH_RANKS": 2}})
     jobs.append({"name": "step_kinds", "func": "step_kinds", "role": "decide", "timeout": 400, "env": {"CH_RANKS": 2, "CH_SLICE": -1}})
+    jobs.append({"name": "step_space/3ranks", "func": "step_space", "role": "decide", "timeout": 400 if tier == "quick" else 1500,
+                 "env": {"CH_RANKS": 3, "CH_SLICE": -1}})
     from .. import specgen
     for s in specgen.f_metrics("quick", seed):
         if len(s["exprs"]) > 1:
